@@ -22,7 +22,7 @@ InfC == 1073741824
 TermTime == Cfg.term
 
 VARIABLES msg, hist, base, ckpt, owner, rb, cpos, cheld, termT, gvtSeen, gvtCnt, gvtVals, finiLp, finiQ, votes,
-          stopped, exited, hand, voted, maxDecl, mustVote,
+          stopped, exited, hand, voted, maxDecl, mustVote, announced,
           l,       \* next trace line
           bad,     \* failed checks of the step that failed first
           expect   \* thr -> message that the thread must re-insert next (0: none)
@@ -30,9 +30,9 @@ VARIABLES msg, hist, base, ckpt, owner, rb, cpos, cheld, termT, gvtSeen, gvtCnt,
 TW == INSTANCE TimeWarp WITH NThreads <- NThreadsC, NLp <- NLpC, Inf <- InfC
 
 twvars == <<msg, hist, base, ckpt, owner, rb, cpos, cheld, termT, gvtSeen, gvtCnt, gvtVals, finiLp, finiQ, votes,
-            stopped, exited, hand, voted, maxDecl, mustVote>>
+            stopped, exited, hand, voted, maxDecl, mustVote, announced>>
 tvars == <<msg, hist, base, ckpt, owner, rb, cpos, cheld, termT, gvtSeen, gvtCnt, gvtVals, finiLp, finiQ, votes,
-           stopped, exited, hand, voted, maxDecl, mustVote, l, bad, expect>>
+           stopped, exited, hand, voted, maxDecl, mustVote, announced, l, bad, expect>>
 
 \* sequential delivery history of every LP (LP_INIT excluded)
 Ref == [p \in TW!LpSet |-> SelectSeq(RefLog, LAMBDA x : x.e = "Disp" /\ x.lp = p /\ x.ty # 65534)]
@@ -56,7 +56,7 @@ TInit == TW!Init /\ l = 1 /\ bad = <<>> /\ expect = [r \in TW!Threads |-> 0] /\ 
 TConfig == IsEvent("Config") /\ UNCHANGED <<twvars, bad, expect>>
 
 Skippable == {"BarArrive", "BarLeave", "GvtStart", "GvtInitiate", "TPhase", "NPhase", "DrainStage", "ModelFini",
-              "TermCtrl"}
+              "NoSuchEvent"}
 TSkip == l <= Len(TraceLog) /\ bad = <<>> /\ Line.e \in Skippable /\ l' = l + 1 /\ UNCHANGED <<twvars, bad, expect>>
 
 TAlloc == IsEvent("Alloc") /\ Step(<<Known(Line.m)>> \o TW!AllocChecks(R, Line.m), TW!Alloc(R, Line.m)) /\ UNCHANGED expect
@@ -147,7 +147,8 @@ TFossil ==
 
 TFree == IsEvent("Free") /\ Step(<<Known(Line.m)>> \o TW!FreeChecks(R, Line.m), TW!Free(R, Line.m)) /\ UNCHANGED expect
 
-TGvt == IsEvent("Gvt") /\ Step(<<TW!NoPendingVote(R)>> \o TW!GvtChecks(R, Line.val), TW!Gvt(R, Line.val)) /\ UNCHANGED expect
+TTermCtrl == IsEvent("TermCtrl") /\ Step(<<>>, TW!TermCtrl) /\ UNCHANGED expect
+TGvt == IsEvent("Gvt") /\ Step(<<TW!NoPendingVote(R), TW!Announced>> \o TW!GvtChecks(R, Line.val), TW!Gvt(R, Line.val)) /\ UNCHANGED expect
 
 TTermLp ==
   /\ IsEvent("TermLp")
@@ -196,7 +197,7 @@ TCrash ==
 TNext ==
   \/ TConfig \/ TSkip \/ TAlloc \/ TLpInit \/ TPush \/ TSend \/ TDrain \/ TExtract \/ TFlag \/ TRbBegin \/ TAntiLocal
   \/ TUndo \/ TRestore \/ TRbEnd \/ TExec \/ TCkpt \/ TFossil \/ TFree \/ TGvt \/ TTermLp \/ TTermUndo \/ TVote \/ TStop
-  \/ TLoopExit \/ TFiniStage \/ TLpFini \/ TEnd \/ THang \/ TCrash
+  \/ TLoopExit \/ TTermCtrl \/ TFiniStage \/ TLpFini \/ TEnd \/ THang \/ TCrash
 TSpec == TInit /\ [][TNext]_tvars
 
 Progress == TLCSet(1, IF l > TLCGet(1) THEN l ELSE TLCGet(1)) /\ (bad # <<>> => TLCSet(2, bad))
